@@ -27,7 +27,7 @@ func runC15(x *Ctx) {
 	x.C.Rule("C15.R1", "Covers = textual prefix AND segment boundary", 6)
 	x.C.Rule("C15.R2", "Parse grammar: leading slash, no trailing slash, lower case, input returned unchanged", 7)
 	x.C.Rule("C15.R4", "Join appends whole non-empty segments, one separator each", 2)
-	x.C.Rule("C15.R3", "single separator constant in Top / Join / Segments", 3)
+	x.C.Rule("C15.R3", "single separator constant in Top / Join / Segments; Segments keeps empty segments", 4)
 
 	if f := x.fn("C15.R1", "(pkg/command.Command).Covers"); f != nil {
 		// accepted renderings of the two facts (today's HasPrefix form and the strings.CutPrefix form)
@@ -121,6 +121,26 @@ func runC15(x *Ctx) {
 			}
 		}
 		x.C.Obl("C15.R3", "separator:"+name, x.pos(f), "the only non-empty string constant used is the separator \"/\"", bad == "" && n >= want, bad)
+	}
+	// Segments keeps every segment, empty ones included ("/a//b" has the segments a, "", b): only the splitting
+	// functions that keep empty fields may be used (Fields / FieldsFunc / Trim* collapse or drop separators, and
+	// two different commands would then have the same segments)
+	if f := x.fn("C15.R3", "(pkg/command.Command).Segments"); f != nil {
+		allowed := map[string]bool{"strings.Split": true, "strings.SplitN": true, "strings.Cut": true, "strings.Index": true, "strings.IndexByte": true,
+			"strings.HasPrefix": true, "strings.TrimPrefix": true, "strings.CutPrefix": true, "strings.Count": true}
+		bad, n := "", 0
+		for _, p := range x.pathsQuiet(f) {
+			for _, c := range p.Calls() {
+				ct := p.Term(c)
+				if ct.Op == "call" && strings.HasPrefix(ct.Name, "strings.") {
+					n++
+					if !allowed[ct.Name] {
+						bad += x.P.Pos(c.Pos()) + ": " + ct.Name + " in Segments: it does not keep empty segments apart\n"
+					}
+				}
+			}
+		}
+		x.C.Obl("C15.R3", "segments:keeps-empty", x.pos(f), "Segments splits with functions that keep empty segments (Split / SplitN / Cut / Index)", bad == "", dedupLines(bad))
 	}
 	sepOK("pkg/command.Top", 1)
 	sepOK("(pkg/command.Command).Join", 1)
